@@ -79,6 +79,15 @@ def run_property(prop, tier, repo_root, seed, open_findings):
             obligations.extend(('regex:lexer', ob) for ob in facts)
         except Exception as e:
             undecided.append({'name': 'regex:lexer', 'reason': 'patterns could not be read/translated: %s' % e})
+    if 'json' in u.get('regex', []):
+        from . import lexfacts
+        try:
+            facts = lexfacts.json_facts(eng.repo)
+            functions.append({'name': 'json.dumps output language vs STRING (regex facts, T4)', 'tier': 'P',
+                              'obligations': len(facts)})
+            obligations.extend(('regex:json', ob) for ob in facts)
+        except Exception as e:
+            undecided.append({'name': 'regex:json', 'reason': str(e)})
     # definitional clauses are not obligations
     obligations = [(k, ob) for k, ob in obligations if not ob.name.split('#')[0].endswith('post.define')]
     plain, groups = apply_induction(eng, obligations)
